@@ -59,7 +59,7 @@ CONFIG = dict(
          "BmpCodec / MrtCodec / encode_table_dump into ONE buffer; ~half of the items are daemon events converted by the REAL "
          "daemon code (live Adj-RIB-In pre/post and Adj-RIB-Out pre/post route monitoring, Loc-RIB, MRT update, peer down "
          "for all 7 SessionDownReason shapes, snapshot flush of 0..6 announce/withdraw changes of colliding prefixes from the "
-         "flushed and from foreign peers, dump_table of 0..4 peers x 0..3 IPv4 + 0..3 IPv6 prefixes x 1..3 paths), the rest "
+         "flushed and from foreign peers, the Loc-RIB Peer Up (loc_rib_peer_up), dump_table of 0..4 peers (sometimes two sessions sharing an address) x 0..3 IPv4 + 0..3 IPv6 prefixes x 1..3 paths, and of 256..305 peers), the rest "
          "packet-level records: all BMP kinds (route monitoring reach/unreach/EoR, peer up with "
          "arbitrary capability sets incl. >255 bytes, peer down with all 5 reasons, initiation TLVs, stats/termination/"
          "mirroring), BGP4MP with and without add-path, TABLE_DUMP_V2 dumps (0..300 peers, 0..15 entries, attribute blocks "
@@ -75,7 +75,7 @@ CONFIG = dict(
                    "reason-1", "reason-2", "reason-3", "reason-4", "reason-5", "tlvs-0", "tlvs-3", "afi-v4", "afi-v6",
                    "mixed-local", "asn2", "peers-0", "peers-few", "peers-many", "ents-0", "ents-few", "ents-many",
                    "rib4", "rib6", "attrlen-0", "attrlen-some", "attrlen-max", "attrlen-over", "(panic)",
-                   "ev-rm", "ev-out", "ev-loc", "ev-mrt", "ev-down", "ev-flush", "ev-dump", "pre", "post",
+                   "ev-rm", "ev-out", "ev-loc", "ev-mrt", "ev-down", "ev-locup", "ev-flush", "ev-dump", "dpeers-256+", "pre", "post",
                    "sess-none", "sess-hold", "sess-fsm", "sess-admin", "sess-io", "sess-remote", "sess-local",
                    "fmsgs-0", "fmsgs-2", "fmsgs-4", "dpeers-0", "dpeers-1", "dpeers-2", "dpeers-4", "dchg4-0", "dchg4-3",
                    "dchg6-0", "dchg6-3"],
